@@ -378,7 +378,7 @@ def monitor_factory(into_items):
                 out.append((f'C05:{head}:reparse:{type(e).__name__}', f'from_data({d!r}, {T!r}) raised {type(e).__name__}: {e}', None))
                 return out
             opaque_differs = False
-            if 'VOpaque' in canon(x) and 'FNan' not in canon(x):
+            if 'VOpaque' in canon(x) and 'FNan' not in canon(x) and 'nan' not in repr(x).lower():     # (no NaN of any library type: it is unequal to itself and reorders sets)
                 # library values the term language does not spell out (ValueOrList, ...): their own equality decides
                 try:
                     opaque_differs = type(y) is not type(x) or (not (y == x) and repr(y) != repr(x))     # (Decimal('NaN') != itself)
